@@ -257,7 +257,7 @@ var initStd = map[string]bool{
 	"encoding/hex": true, "encoding/base64": true, "errors": true, "cmp": true, "maps": true, "io": true,
 	"gopkg.in/src-d/go-errors.v1": true, "container/list": true, "hash/crc32": false,
 	"internal/strconv": true, "internal/stringslite": true, "internal/byteorder": true, "internal/itoa": true,
-	"github.com/cockroachdb/apd/v3": true, "context": true, "net/netip": true,
+	"github.com/cockroachdb/apd/v3": true, "context": true, "net/netip": true, "go.opentelemetry.io/otel/trace": true, "bufio": true,
 }
 
 func (w *World) wantInit(p *ssa.Package) bool {
@@ -275,7 +275,7 @@ var denyPrefixes = []string{
 	"os", "net", "syscall", "runtime", "reflect", "time", "fmt", "log", "sync", "os/",
 	"internal/reflectlite", "internal/poll", "internal/syscall", "internal/runtime", "internal/testlog", "internal/bisect", "internal/oserror",
 	"github.com/sirupsen/logrus", "go.opentelemetry.io/", "io/ioutil", "io/fs", "net/", "crypto/", "testing",
-	"unsafe", "path/filepath", "bufio", "math/rand", "math/big", "regexp", "encoding/json", "database/sql",
+	"unsafe", "path/filepath", "math/rand", "math/big", "regexp", "encoding/json", "database/sql",
 	"google.golang.org/", "runtime/",
 }
 
@@ -305,7 +305,8 @@ var allowFuncs = map[string]bool{"(*fmt.wrapError).Error": true, "(*fmt.wrapErro
 func (w *World) allowedPath(path string) bool {
 	switch path {
 	case "sync/atomic", "internal/stringslite", "internal/bytealg", "internal/byteorder", "internal/itoa", "internal/godebug",
-		"internal/race", "internal/goarch", "internal/cpu", "internal/abi", "internal/unsafeheader", "net/netip":
+		"internal/race", "internal/goarch", "internal/cpu", "internal/abi", "internal/unsafeheader", "net/netip",
+		"go.opentelemetry.io/otel/trace", "go.opentelemetry.io/otel/trace/embedded", "go.opentelemetry.io/otel/trace/noop":
 		return true
 	}
 	for _, d := range denyPrefixes {
